@@ -45,7 +45,7 @@ TRUSTED_EXTRA = [
 # ------------------------------------------------------------------ tiers
 def batches(tier):
     if tier == 'thorough':
-        return [('pg', 24000), ('redis', 8000), ('contact', 500), ('conv', 4000), ('serde', 16000)]
+        return [('pg', 48000), ('redis', 16000), ('contact', 800), ('conv', 6000), ('serde', 30000)]
     return [('pg', 1800), ('redis', 900), ('contact', 120), ('conv', 400), ('serde', 1800)]
 
 
@@ -522,6 +522,22 @@ def monitor_serde(case):
         if O[1] != [1] + value:
             fails.append('serialise / deserialise round trip (%s source, %s reader): %r came back as %r'
                          % ('environment' if cfg[3] else 'typed', 'lenient' if cfg[1] else 'typed', value, O[1]))
+    elif src == 3:
+        # sections left out of the serialised value: the documented defaults take their place
+        mask = cfg[5]
+        if what == 0:
+            m, ts, q = Cur(value).pool()
+            want = (m, (None, None, None) if mask & 1 else ts, 0 if mask & 2 else q)
+            got = Cur(O[1][1:]).pool() if O[1][:1] == [1] else None
+        else:
+            ts = Cur(value).timeouts()
+            want = tuple(None if mask & (1 << i) else ts[i] for i in range(3))
+            got = Cur(O[1][1:]).timeouts() if O[1][:1] == [1] else None
+        if got != want:
+            names = (['timeouts', 'queue_mode'] if what == 0 else ['wait', 'create', 'recycle'])
+            left = [n for i, n in enumerate(names) if mask & (1 << i)]
+            fails.append('sections %s omitted from the serialisation of %r: read as %r, expected %r (defaults for what is omitted)'
+                         % (left, value, got, want))
     else:
         tree = dec_tree(Cur(case['labels'][1]))
         if O[1][:1] == [1] and what == 0:
@@ -575,7 +591,7 @@ def nontrivial(case):
         return case['labels'][0][:1] != [0] or len(case['labels'][0]) > 4
     if k == 5:
         return True
-    return case['cfg'][4] == 1 or any(x not in (0, 1) for x in case['labels'][0])
+    return case['cfg'][4] in (1, 3) or any(x not in (0, 1) for x in case['labels'][0])
 
 
 # ------------------------------------------------------------------ inventory (DESIGN 6.6)
@@ -853,7 +869,7 @@ def analyze(cases, mobs_all):
                 hist['contact']['%s:%d servers contacted' % (KIND_NAMES[k], c['obs'][2][2])] += 1
         elif k == 6:
             hist['serde_results']['%s reader, %s: %s' % ('lenient' if c['cfg'][1] else 'typed',
-                                                         ['serialised value', 'mutated tree', 'environment try_parsing'][c['cfg'][4]],
+                                                         ['serialised value', 'mutated tree', 'environment try_parsing', 'sections omitted'][c['cfg'][4]],
                                                          'Some' if c['obs'][1][:1] == [1] else 'None')] += 1
         for msg in monitor(c)[:1]:
             s['monitor_fails'].append(dict(trace=ci, step=0, msg=msg))
